@@ -28,6 +28,8 @@ def run(ctx):
     ctx.step(publish, ctx)
     ctx.step(c05.unlink_first, ctx, "C12.erase-next")
     ctx.step(iters, ctx)
+    from . import c13
+    ctx.step(c13.uaf, ctx, "C12.uaf", [f for f in ctx.fb.functions(rec=RCU)], floor=10)
     ctx.step(common.atomic_floors, ctx, "C12.orders", [RCU, NODE], floor=20, files=["rcu_list.hpp"])
     ctx.step(common.witnesses, ctx, "C12.witness", ["C12"])
 
@@ -79,6 +81,16 @@ def publish(ctx, rid="C12.publish"):
                 mk = [st for st in f.stmts.values() if st["k"] == "CallExpr" and callee_fq(st) == "gmlc::libguarded::detail::allocate_unique"]
                 ok = len(mk) == 1 and f.dominates(f.pos_of(mk[0]), pubs[0]["pos"])
                 ctx.ob(rid, ok, f.loc(pubs[0]["st"]), "the node is fully constructed before it is published", "", fn=f.label, inst=f.qname)
+                if mk:
+                    # the element's constructor is user code and may re-enter the list (recursive mutexes are documented as
+                    # supported): the ends of the list must be read after it ran
+                    early = [e for e in ev if e["k"] == "aload" and e["fld"] in ((RCU, "m_head"), (RCU, "m_tail")) and
+                             f.reach_avoiding(e["pos"], f.pos_of(mk[0]), [])]
+                    ok = not early
+                    ctx.ob(rid, ok, f.loc(mk[0]), "m_head / m_tail are read only after the element was constructed (user code that "
+                           "inserts into the same list cannot be overwritten)", "" if ok else
+                           "%s is read at %s before the user constructor runs and used afterwards" % (early[0]["obj"], f.loc(early[0]["st"])),
+                           fn=f.label, inst=f.qname)
                 if front:
                     # non-empty branch: old head linked first
                     nonempty = any(e["k"] == "branch" and any(a[0] == "eq" and a[1] == "l:oldHead" and a[2] == "nullptr" and a[3] is False
